@@ -19,7 +19,7 @@ def load_meta(pid, n):
     os.makedirs(d, exist_ok=True)
     src = os.path.join(SEED, pid, "out")
     for a, b in (("patch_%s.diff" % n, "patch.diff"), ("demo_%s.py" % n, "demo.py")):
-        if os.path.exists(os.path.join(src, a)):
+        if os.path.exists(os.path.join(src, a)) and not os.path.exists(os.path.join(d, b)):
             shutil.copy(os.path.join(src, a), os.path.join(d, b))
     mp = os.path.join(d, "meta.json")
     if os.path.exists(mp):
@@ -43,6 +43,13 @@ def suite(pid, n):
     assert r.returncode == 0, r.stderr
     try:
         r = sh(["git", "-C", wt, "apply", os.path.join(d, "patch.diff")])
+        if r.returncode != 0:
+            # the tree moved under the patch (a later fix commit touched neighbouring lines): retry with less context
+            # and keep the re-based patch
+            r = sh(["git", "-C", wt, "apply", "-C1", "--recount", os.path.join(d, "patch.diff")])
+            if r.returncode == 0:
+                open(os.path.join(d, "patch.diff"), "w").write(sh(["git", "-C", wt, "diff"]).stdout)
+                meta["rebased_on"] = sh(["git", "-C", "/repo", "rev-parse", "--short", "HEAD"]).stdout.strip()
         meta["applies"] = r.returncode == 0
         if r.returncode != 0:
             meta["apply_error"] = r.stderr[-500:]
